@@ -114,7 +114,7 @@ theorem step_early (s : State) (op : Op) : (step s op).1.early = s.early := by
         | mk p ok =>
           cases ok
           · rfl
-          · simp only [cache_early]
+          · simp only [natInstall_early, qosInstall_early, cache_early]
     | some l =>
       simp only [renew]
       split
@@ -145,6 +145,7 @@ theorem step_early (s : State) (op : Op) : (step s op).1.early = s.early := by
         · simp only [e, if_false]; exact term_early b s
     | cleanup o => simp only [split, term_early]; exact applyList_early _ _ _
   | shutdown => rfl
+  | fault w on => exact setFault_early s w on
 
 
 /-! ### the lease and accounting tables have unique keys -/
@@ -220,8 +221,8 @@ theorem nd_step {s : State} (h : ND s) (op : Op) : ND (step s op).1 := by
           · exact h
           · simp only
             refine ⟨?_, ?_⟩
-            · show NodupKeys (cache _ m cid).leases
-              rw [(cache_rest _ _ _).2.2.2.1]
+            · show NodupKeys (natInstall (qosInstall (cache _ m cid) ip) ip).leases
+              rw [(natInstall_rest _ _).2.2.2.1, (qosInstall_rest _ _).2.2.2.1, (cache_rest _ _ _).2.2.2.1]
               exact nodupKeys_insert h.1 _ _
             · show NodupKeys (if s.radius = true then addStart (cache _ m cid).acct _ m else (cache _ m cid).acct)
               rw [(cache_rest _ _ _).2.2.2.2.2.2.2.1]
@@ -264,6 +265,11 @@ theorem nd_step {s : State} (h : ND s) (op : Op) : ND (step s op).1 := by
         · simp only [e, if_false]; exact nd_term h b
     | cleanup o => simp only [split]; exact nd_term (nd_applyList _ _ h) b
   | shutdown => exact h
+  | fault w on =>
+    simp only [step, setFault]
+    split
+    · exact h
+    · split <;> exact h
 
 /-! ### the invariant on the model -/
 
@@ -669,6 +675,7 @@ theorem ends_what_it_should {s : State} (h : W s) (o : Op) {m : Nat} {l : Lease}
   | disc m' => simp [Aimed, kindOf] at ha
   | req m' ip cid => simp [Aimed, kindOf] at ha
   | tick n => simp [Aimed, kindOf] at ha
+  | fault w on => simp [Aimed, kindOf] at ha
   | shutdown => simp [kindOf, ranOf] at hk
   | term t =>
     obtain ⟨d, hd⟩ := flag_of_aimed_term (t := t) ha
@@ -823,6 +830,7 @@ theorem noop_when_nothing_aimed {s : State} (o : Op)
   | disc m' => simp [kindOf, Kind.isTermination] at hk
   | req m' ip cid => simp [kindOf, Kind.isTermination] at hk
   | tick n => simp [kindOf, Kind.isTermination] at hk
+  | fault w on => simp [kindOf, Kind.isTermination] at hk
   | shutdown => rfl
   | term t =>
     apply term_noop t
